@@ -2,6 +2,7 @@ SPECIFICATION Spec
 CONSTANTS
   Params <- RecvCoreFull
   MaxBase = 6
+  MaxHist = 1000000
 VIEW View
 ACTION_CONSTRAINT PrintScript
 CHECK_DEADLOCK FALSE
